@@ -523,9 +523,9 @@ Proof.
   intros G out d1 lg1 E. destruct o as [m|v|e|cb eb| | | |x]; simpl; try (split; reflexivity).
   - simpl in E. destruct (match_deferred m d lg) as [[b dm] lgm] eqn:M. injection E as <- <- <-.
     destruct (match_deferred_okb m d lg G _ _ _ M) as (-> & C & -> & A).
-    rewrite <- inspects_consumes. unfold after_okb.
+    pose proof (inspects_consumes m (state_of d)) as IC. unfold after_okb.
     rewrite C, Nat.sub_diag, Bool.eqb_reflx. simpl.
-    destruct (inspects m (state_of d)).
+    destruct (inspects m (state_of d)); rewrite <- IC.
     + subst dm. simpl. rewrite Bool.eqb_reflx. split; reflexivity.
     + rewrite A. rewrite Bool.eqb_reflx. simpl. split; [|reflexivity]. apply dstate_eqb_spec. reflexivity.
   - simpl in E. pose proof (extract_result_okb d lg G) as X.
